@@ -154,3 +154,23 @@ fn c17_k_twelve_star() {
 
 // (28 mansions: the Kani harness over (weekday, pillar) pairs took 580 s and ended in spurious dealloc checks of the
 //  28-name tables; luminary == weekday and +1 per day are checked by execution for every date, c17_day_series.)
+
+// ---- C08 / C11: SixtyCycleMonth::next: 12*year + index moves by exactly n; the pillar moves by n --------------------------
+#[kani::proof]
+#[kani::unwind(61)]
+#[kani::stub(alloc::fmt::format, stub_format)]
+#[kani::stub(SixtyCycle::from_index, faithful_cycle_from_index)]
+#[kani::stub(EarthBranch::from_index, faithful_branch_from_index)]
+fn c08_k_month_next() {
+  let y: isize = kani::any(); let mp: isize = kani::any(); let n: isize = kani::any();
+  kani::assume(y >= 0 && y <= 9999 && mp >= 0 && mp < 60 && n >= -300 && n <= 300);   // |n| <= 300: 64-bit div/mod circuits time out for wider n
+  let m = SixtyCycleMonth { year: SixtyCycleYear { year: y }, month: cheap_cycle(mp) };
+  let idx = spec::emod(mp as i64 % 12 - 2, 12);                       // position in the year: Yin month = 0
+  let t = (y as i64) * 12 + idx + n as i64;
+  kani::assume(t >= 0 && t <= 9999 * 12 + 11);
+  let r = m.next(n);
+  assert!(m.get_index_in_year() as i64 == idx, "index in year counts from the Yin month");
+  assert!((r.get_sixty_cycle_year().get_year() as i64) * 12 + r.get_index_in_year() as i64 == t, "12*year + index moves by exactly n");
+  assert!(r.get_sixty_cycle().get_index() as i64 == spec::emod(mp as i64 + n as i64, 60), "the month pillar moves by n");
+  kani::cover!(n == -1 && idx == 0, "month_next reachable (backward across Lichun)");
+}
